@@ -36,7 +36,7 @@ func init() {
 		MaxSteps:     400000,
 		YieldFiles:   []string{"ss2022/stream.go", "ss2022/tcp.go"},
 		QuickRuns:    10000,
-		ThoroughSecs: 600,
+		ThoroughSecs: 400,
 		Rule: "one run = one configuration (cipher, single/multi-user, prefixes, segmented-header allowance, fallback address, held or foreign client key, target, initial payload, " +
 			"write scripts and read paths of both sides) and one or two tamper operators (bit flip, cut+FIN, drop, duplicate, swap, in-session replay of an earlier element at a distance around the carry boundaries of the counter nonce, splice with a recorded second session under the same or a " +
 			"different key, response swap) bound to structural positions (prefix, salt, identity header, fixed/variable header, response header, first payload, length chunk k, payload chunk k) " +
